@@ -344,6 +344,26 @@ Proof.
   destruct (geti r f =? z)%Z eqn:E; cbn in Hr; [|discriminate]. now apply Z.eqb_eq in E.
 Qed.
 
+(* the entries an entry loop inspects *)
+Lemma entries_valid_in R X es e : entries_validb R X es = true -> In e (inspected X es) -> rec_validb R e = true.
+Proof. unfold entries_validb. intros H Hin. rewrite forallb_forall in H. now apply H. Qed.
+
+Lemma inspected_incl X es e : In e (inspected X es) -> In e es.
+Proof.
+  induction es as [|a es IH]; cbn [inspected]; [easy|]. destruct (may_exit X a).
+  - intros [<-|[]]. now left.
+  - intros [<-|H]; [now left|right; now apply IH].
+Qed.
+
+Lemma inspected_all X es : (forall e, In e es -> may_exit X e = false) -> inspected X es = es.
+Proof.
+  induction es as [|a es IH]; intros H; [reflexivity|]. cbn [inspected].
+  rewrite (H a (or_introl eq_refl)). f_equal. apply IH. intros e He. apply H. now right.
+Qed.
+
+Lemma may_exit_false r : may_exit CFalse r = false.
+Proof. reflexivity. Qed.
+
 (* ------------------------------------------------------------------ *)
 (* non-vacuity of the generic statements on a small hand-written table    *)
 
